@@ -89,10 +89,11 @@ var c15Targets = []string{`{"a":1}`, `{"a":{"b":1},"b":2,"c":{"x":1}}`, `[1]`, `
 
 func init() {
 	engine.Register(&engine.Check{
-		ID: "C15",
+		ID:        "C15",
+		Companion: "C15ORD",
 		Rule: "call-history exploration: for every (a,b,o) of the universes (plus diffs read from merge patches and from JSON Patch documents against a target set) and every history of read-only API calls of length <= 2 (thorough: 3) over " +
 			"{Render, Render(COLOR), RenderPatch, RenderMerge, Json, Yaml, Equals, Diff-again}: after every call the memory snapshot of (a,b,d) - public DiffElement fields with the Go type and Json() of every node - must equal the initial snapshot, " +
-			"every output must equal the output of the same call on fresh values, and the final a.Patch(d) must give the history-free result; determinism leg: 40 in-process repetitions of every output on fresh values must be identical; non-trivial = history of length >= 2 on a non-empty diff",
+			"every output must equal the output of the same call on fresh values, and the final a.Patch(d) must give the history-free result; determinism leg: 40 in-process repetitions of every output on fresh values must be identical; map-order leg (build with controlled map iteration, DESIGN.md section 5): every output under every single (thorough: double) deviation of a map range from sorted order must equal the sorted-order output; non-trivial = history of length >= 2 on a non-empty diff, or an execution with a deviating map order",
 		Bounds: func(tier string) map[string]interface{} {
 			L := 2
 			if tier == "thorough" {
